@@ -160,7 +160,9 @@ class RtdScaling(object):
 
     @staticmethod
     def _get_negative_real_root(roots):
-        filtered = [r for r in roots if not np.iscomplex(r) and r.real < 0.0]
+        # Allow for numerical error in the computed roots when the temperature is very close to zero
+        tolerance = 1.0e-9
+        filtered = [r for r in roots if abs(r.imag) <= tolerance and r.real < tolerance]
         if len(filtered) != 1:
             raise ValueError("Expected single real valued negative root for RTD equation")
         return filtered[0].real
